@@ -10,7 +10,8 @@
  * order: 0 none, 1 receive posted first (sender sleeps), 2 send posted first (receiver sleeps)
  * The program judges nothing. For each case the receiver prints the classification of every byte of its buffer as a
  * run-length list ("R <id> <class> <begin> <end> ..."), the sender the same for its own buffer ("S <id> ...").
- * Classes of the receive buffer: H declared shared (not looked at), G still the receiver's fill pattern,
+ * Classes of the receive buffer: H declared shared (not looked at), U private here but the byte sent to it was a shared
+ * one (not looked at), G still the receiver's fill pattern,
  * S the byte the sender had at the corresponding position of the message, X anything else.
  * Classes of the send buffer: H declared shared, O still the sender's fill pattern, X anything else.
  * Fill patterns are position dependent; sender bytes are even, receiver bytes odd, so S and G never coincide. */
@@ -109,7 +110,7 @@ static void fill(const buf_t* b, long id, int recv)
 }
 
 #define LINE_MAX_RUNS 4000
-static void emit(const char* tag, long id, const buf_t* b, int recv, long roff, long soff, long mlen)
+static void emit(const char* tag, long id, const buf_t* b, int recv, long roff, long soff, long mlen, const buf_t* sender)
 {
   /* run-length classification */
   printf("%s %ld", tag, id);
@@ -120,6 +121,8 @@ static void emit(const char* tag, long id, const buf_t* b, int recv, long roff, 
     if (i < b->size) {
       if (is_shared(b, i))
         c = 'H';
+      else if (recv && i >= roff && i < roff + mlen && is_shared(sender, soff + (i - roff)))
+        c = 'U'; /* the byte sent here was a shared one: content undefined, not looked at */
       else if (b->mem[i] == pat(id, i, recv))
         c = recv ? 'G' : 'O';
       else if (recv && i >= roff && i < roff + mlen && b->mem[i] == pat(id, soff + (i - roff), 0))
@@ -314,9 +317,9 @@ int main(int argc, char** argv)
     long mlen = slen < rlen ? slen : rlen;
     g_op      = "emit";
     if (wr == dst)
-      emit("R", id, &rb, 1, roff, soff, mlen);
+      emit("R", id, &rb, 1, roff, soff, mlen, &sb);
     if (wr == src)
-      emit("S", id, &sb, 0, 0, 0, 0);
+      emit("S", id, &sb, 0, 0, 0, 0, NULL);
     MPI_Barrier(MPI_COMM_WORLD);
     if (wr == src)
       free_buf(&sb, s_malloc);
